@@ -27,6 +27,12 @@ RoundDiv(n, d) == (2 * n + d) \div (2 * d)
 RoundMulDiv(a, b, c) == LET q == a \div c  r == a % c IN q * b + RoundDiv(r * b, c)
 FloorMulDiv(a, b, c) == LET q == a \div c  r == a % c IN q * b + ((r * b) \div c)
 
+(* TLC evaluates operator arguments and LET definitions by name (and does   *)
+(* not cache them inside parametrised operators): an expensive value used   *)
+(* many times is recomputed each time.  Binding it with a quantifier over a *)
+(* singleton set forces one evaluation: ByValue(v, Op) = Op(v).             *)
+ByValue(v, Op(_)) == CHOOSE r \in {Op(t) : t \in {v}} : TRUE
+
 (***************************************************************************)
 (* Bit strings are sequences over {0,1}, first transmitted bit first.      *)
 (***************************************************************************)
